@@ -30,7 +30,9 @@ cvars == <<ah, wh, na, nw, sa, sw, rh, mrh, waitc, owedc, forced, obs>>
 HasW(c) == c.dir = "w"
 
 MasterMoves(c) ==
-  LET AOpts == IF ah # 0 THEN { ah } ELSE IF na = 0 THEN {0, 1, 2} ELSE {0}
+  LET \* c.partial = 2: no new request while the slave still holds one half of a write it never answered
+      Fresh == c.partial = 2 => (sa = 0 /\ sw = 0)
+      AOpts == IF ah # 0 THEN { ah } ELSE IF na = 0 /\ Fresh THEN {0, 1, 2} ELSE {0}
       \* c.wsplit = 1: write data may be offered any time from its address offer on; 0: together with it
       WOpts(t) == IF wh = 1 THEN {1}
                   ELSE IF HasW(c) /\ nw = 0 /\ c.wsplit = 1 /\ (na = 1 \/ t # 0) THEN {0, 1}
@@ -38,12 +40,15 @@ MasterMoves(c) ==
                   ELSE {0}
   IN UNION { { <<IF t = 0 THEN 0 ELSE 1, t, w, r>> : w \in WOpts(t), r \in {0, 1} } : t \in AOpts }
 \* c.late = 0: a slave that let the time-out expire does not accept that request any more (it is dead or
-\* absent); c.late = 1: it may still accept it while the interconnect is terminating it
-CanAcc(c) == c.late = 1 \/ (forced = 0 /\ waitc < c.t)
-\* c.partial = 0: the slave takes address and data of a write in the same cycle or not at all
+\* absent) - the cycle in which the timer expires (waitc = c.t) is the last one in which it may; c.late = 1: it
+\* may still accept it while the interconnect is terminating it
+CanAcc(c) == c.late = 1 \/ (forced = 0 /\ waitc <= c.t)
+\* c.partial = 0: the slave takes address and data of a write in the same cycle or not at all; 1: separately;
+\* 2: separately, and the half it has taken keeps its READY line at will afterwards (ready without valid is
+\* legal and accepts nothing: the master does not start another request before the slave has answered, see Fresh)
 SlaveMoves(c) == { x \in
-                   { <<a, w, r>> : a \in (IF sa = 0 /\ CanAcc(c) THEN {0, 1} ELSE {0}),
-                                 w \in (IF HasW(c) /\ sw = 0 /\ CanAcc(c) THEN {0, 1} ELSE {0}),
+                   { <<a, w, r>> : a \in (IF (sa = 0 /\ CanAcc(c)) \/ (sa = 1 /\ c.partial = 2) THEN {0, 1} ELSE {0}),
+                                 w \in (IF HasW(c) /\ ((sw = 0 /\ CanAcc(c)) \/ (sw = 1 /\ c.partial = 2)) THEN {0, 1} ELSE {0}),
                                  r \in (IF rh = 1 THEN {1} ELSE {0, 1}) } :
                    (HasW(c) /\ c.partial = 0) => x[1] = x[2] }
 Inputs(c) == { m \o s : m \in MasterMoves(c), s \in SlaveMoves(c) }
@@ -87,7 +92,8 @@ CStep(c, iv, o) ==
               okintime |-> waitc <= c.t + c.slack,
               \* requests answered in time are not disturbed: nothing is made up before the time-out
               oknoearly |-> /\ (synthA \/ synthW \/ synthR) => (expired \/ forced = 1)
-                            /\ (o[5] = 1 => expired),
+                            \* the error pulse belongs to an offer that is still waiting in this very cycle
+                            /\ (o[5] = 1 => (expired /\ waiting)),
               \* a made-up response says SLVERR (with all-ones data on reads)
               okerr |-> synthR => o[4] = 2,
               \* a response of the slave reaches the master unchanged
